@@ -8,7 +8,7 @@ From TLV Require Import Base.Ops Model.Prox Proofs.ProxProofs Proofs.ProxProofsH
   Proofs.ProxProofsSmooth Proofs.ProxProofsFirm Proofs.ProxProofsNormSp Proofs.ProxProofsUni
   Base.Tensor Model.Constraints Proofs.ConstraintsProofsKeys Model.ProxDispatch Proofs.ProxProofsDispatch
   Proofs.ProxProofsMore Proofs.ProxProofsMatrix Proofs.ProxProofsRun Proofs.ProxRunTransfer
-  Base.RSum Proofs.ProxProofsSvt Proofs.ProxProofsSvtList Proofs.ProxProofsFirm2.
+  Base.RSum Proofs.ProxProofsSvt Proofs.ProxProofsSvtList Proofs.ProxProofsFirm2 Proofs.ProxProofsRunIdem Proofs.ProxProofsRunFirm.
 Import ListNotations.
 Open Scope R_scope.
 
@@ -336,6 +336,17 @@ Theorem C12_proximal_operator_no_const : forall F (Op : fops F) conv order specs
   proximal_operator Op conv None order specs aux X = Ok X.
 Proof. exact @proximal_operator_no_const. Qed.
 Print Assumptions C12_proximal_operator_no_const.
+(* number of dimensions (Model/ProxDispatch.ndim_ok, proximal_operator_nd): monotonicity / unimodality (explicit validation) and simplex /
+   soft_sparsity (shape unpacking) raise ValueError for more than two dimensions, the operators on the flattened tensor accept any number *)
+Theorem C12_proximal_operator_ndim_le2 : forall F (Op : fops F) conv ndim n_const order specs aux X, (1 <= ndim <= 2)%nat ->
+  proximal_operator_nd Op conv ndim n_const order specs aux X = proximal_operator Op conv n_const order specs aux X.
+Proof. exact @proximal_operator_nd_le2. Qed.
+Print Assumptions C12_proximal_operator_ndim_le2.
+Theorem C12_proximal_operator_ndim_raises_iff : forall F (Op : fops F) conv ndim n_const order specs aux X,
+  proximal_operator_nd Op conv ndim n_const order specs aux X = Err <->
+  selected_pop conv n_const order specs aux = Err \/ exists o, selected_pop conv n_const order specs aux = Ok o /\ ndim_ok o ndim = false.
+Proof. exact @proximal_operator_nd_raises_iff. Qed.
+Print Assumptions C12_proximal_operator_ndim_raises_iff.
 Theorem C12_proximal_operator_exec : forall n order specs aux X Y,
   proximal_operator Qops (fun q : Q => q) n order specs aux X = Ok Y ->
   proximal_operator Rops Q2R n order specs (Q2R aux) (map (map Q2R) X) = Ok (map (map Q2R) Y).
@@ -352,14 +363,37 @@ Theorem C12_proximal_operator_exec_sound : forall n order specs aux nr nc (X Y :
 Proof. exact proximal_operator_exec_sound. Qed.
 Print Assumptions C12_proximal_operator_exec_sound.
 
+(* idempotence end to end: for the projection kinds (non-negativity, simplex with p > 0, monotonicity, hard sparsity, max-normalisation of
+   a non-zero tensor, the l1-ball operator when every column lies on or outside the ball - idem_side) calling proximal_operator again with
+   the same keyword arguments on its own result returns that result *)
+Theorem C12_prun_idempotent : forall o nr nc X, (1 <= nr)%nat -> (1 <= nc)%nat -> rect nr nc X -> idem_side o X ->
+  prun Rops o (prun Rops o X) = prun Rops o X.
+Proof. exact prun_idempotent. Qed.
+Print Assumptions C12_prun_idempotent.
+Theorem C12_proximal_operator_idempotent : forall n_const order specs aux nr nc X Y o, (1 <= nr)%nat -> (1 <= nc)%nat -> rect nr nc X ->
+  selected_pop Q2R n_const order specs aux = Ok o -> idem_side o X ->
+  proximal_operator Rops Q2R n_const order specs aux X = Ok Y -> proximal_operator Rops Q2R n_const order specs aux Y = Ok Y.
+Proof. exact proximal_operator_idempotent. Qed.
+Print Assumptions C12_proximal_operator_idempotent.
+
+(* firm non-expansiveness end to end: for the convex kinds (non-negativity, l1 with t >= 0, squared l2 with t >= 0, simplex with p > 0,
+   smoothness with t >= 0, monotonicity, identity - firm_side) and two rectangular tensors of the same shape,
+   |P(X) - P(X')|^2 <= <P(X) - P(X'), X - X'> on the flattening, resp. column by column for the column-wise operators (firm_spec) *)
+Theorem C12_prun_firmly_nonexpansive : forall o nr nc X X', (1 <= nr)%nat -> (1 <= nc)%nat -> rect nr nc X -> rect nr nc X' -> firm_side o ->
+  firm_spec o nc (prun Rops o X) (prun Rops o X') X X'.
+Proof. exact prun_firmly_nonexpansive. Qed.
+Print Assumptions C12_prun_firmly_nonexpansive.
+
 (* ---- procrustes and svd_thresholding, from the exact contract of the SVD oracle (U: m x k with orthonormal columns, V: k x n with
    orthonormal rows, s >= 0, M = U diag(s) V entrywise; mfun A i j = entry (i, j) of the list-of-rows matrix A, frob = Frobenius inner
    product, fro2 = squared Frobenius distance, ocols r c A = "the c columns of the r x c matrix A are orthonormal").  No von Neumann
    trace inequality is assumed: the proofs go through Bessel's inequality for the singular vectors.
    procrustes (full): the model's output U V maximises <Q, M> over ALL matrices Q with orthonormal columns or orthonormal rows, is a
-   nearest such matrix to M, and is itself such a matrix when V (resp. U) is a square orthogonal matrix (tall / wide input).
+   nearest such matrix to M, is itself such a matrix when V (resp. U) is a square orthogonal matrix (tall / wide input), and equals M when M
+   already is such a matrix (idempotence: all singular values are then 1, whatever decomposition the oracle returns).
    svd_thresholding (partial in one respect): the model's output minimises t |Z|_* + |Z - M|_F^2 / 2 over the matrices Z PRESENTED WITH a
-   singular value decomposition Z = U' diag(s') V' (|Z|_* = sum s'); that every real matrix has one is classical and not proved here. *)
+   singular value decomposition Z = U' diag(s') V' (|Z|_* = sum s'); that every real matrix has one is classical and not proved here.
+   svd_thresholding is firmly non-expansive (full: |X1 - X2|_F^2 <= <X1 - X2, M1 - M2> for two inputs, each with the oracle's decomposition). *)
 Theorem C12_procrustes_max : forall (m n k : nat) (U : list (list R)) (s : list R) (V M : list (list R)),
   (1 <= k)%nat -> rect m k U -> length s = k -> rect k n V -> ocols m k (mfun U) -> ocols n k (fun j l => mfun V l j) ->
   Forall (fun x => 0 <= x) s -> (forall i j, (i < m)%nat -> (j < n)%nat -> mfun M i j = compose k (mfun U) (vfun s) (mfun V) i j) ->
@@ -380,6 +414,23 @@ Theorem C12_procrustes_feasible : forall (m n k : nat) (U V : list (list R)),
   (ocols k m (fun l i => mfun U i l) -> ocols n m (fun j i => mfun (procrustes_with Rops U V) i j)).
 Proof. exact procrustes_list_feasible. Qed.
 Print Assumptions C12_procrustes_feasible.
+Theorem C12_procrustes_idempotent : forall (m n k : nat) (U : list (list R)) (s : list R) (V M : list (list R)),
+  (1 <= k)%nat -> rect m k U -> length s = k -> rect k n V -> ocols m k (mfun U) -> ocols n k (fun j l => mfun V l j) ->
+  Forall (fun x => 0 <= x) s -> (forall i j, (i < m)%nat -> (j < n)%nat -> mfun M i j = compose k (mfun U) (vfun s) (mfun V) i j) ->
+  ocols m n (mfun M) \/ ocols n m (fun j i => mfun M i j) ->
+  forall i j, (i < m)%nat -> (j < n)%nat -> mfun (procrustes_with Rops U V) i j = mfun M i j.
+Proof. exact procrustes_list_fixed. Qed.
+Print Assumptions C12_procrustes_idempotent.
+Theorem C12_svt_firmly_nonexpansive : forall m n t k1 U1 s1 V1 M1 k2 U2 s2 V2 M2, 0 <= t ->
+  (1 <= k1)%nat -> rect m k1 U1 -> length s1 = k1 -> rect k1 n V1 -> ocols m k1 (mfun U1) -> ocols n k1 (fun j l => mfun V1 l j) ->
+  Forall (fun x => 0 <= x) s1 -> (forall i j, (i < m)%nat -> (j < n)%nat -> mfun M1 i j = compose k1 (mfun U1) (vfun s1) (mfun V1) i j) ->
+  (1 <= k2)%nat -> rect m k2 U2 -> length s2 = k2 -> rect k2 n V2 -> ocols m k2 (mfun U2) -> ocols n k2 (fun j l => mfun V2 l j) ->
+  Forall (fun x => 0 <= x) s2 -> (forall i j, (i < m)%nat -> (j < n)%nat -> mfun M2 i j = compose k2 (mfun U2) (vfun s2) (mfun V2) i j) ->
+  let X1 := mfun (svd_thresholding_with Rops U1 s1 V1 t) in let X2 := mfun (svd_thresholding_with Rops U2 s2 V2 t) in
+  frob m n (fun i j => X1 i j - X2 i j) (fun i j => X1 i j - X2 i j)
+  <= frob m n (fun i j => X1 i j - X2 i j) (fun i j => mfun M1 i j - mfun M2 i j).
+Proof. exact svt_list_firmly_nonexpansive. Qed.
+Print Assumptions C12_svt_firmly_nonexpansive.
 Theorem C12_svt_optimal_partial : forall (m n k : nat) (U : list (list R)) (s : list R) (V M : list (list R)),
   (1 <= k)%nat -> rect m k U -> length s = k -> rect k n V -> ocols m k (mfun U) -> ocols n k (fun j l => mfun V l j) ->
   Forall (fun x => 0 <= x) s -> (forall i j, (i < m)%nat -> (j < n)%nat -> mfun M i j = compose k (mfun U) (vfun s) (mfun V) i j) ->
@@ -479,7 +530,9 @@ Example C12_nonvacuous_proximal_operator :
   proximal_operator Qops (fun q : Q => q) (Some 3%nat) 0 [(KSimplex, ZDict [((-2)%Z, 1%Q)])] 0%Q [[3; 0]; [1; 0]]%Q = Ok [[3; 0]; [1; 0]]%Q /\
   proximal_operator Qops (fun q : Q => q) (Some 1%nat) 0 [(KHardSparsity, ZScalar (3#2)%Q)] 0%Q [[3; -1]; [2; 0]]%Q = Ok [[3; 0]; [2; 0]]%Q /\
   proximal_operator Qops (fun q : Q => q) (Some 2%nat) 0 [(KL1, ZScalar 1%Q); (KNonNeg, ZDict [(1%Z, 1%Q)])] 0%Q [[3; -1]]%Q = Err /\
-  proximal_operator Qops (fun q : Q => q) None 0 [(KL1, ZScalar 1%Q)] 0%Q [[3; -1]]%Q = Ok [[3; -1]]%Q.
+  proximal_operator Qops (fun q : Q => q) None 0 [(KL1, ZScalar 1%Q)] 0%Q [[3; -1]]%Q = Ok [[3; -1]]%Q /\
+  proximal_operator_nd Qops (fun q : Q => q) 3 (Some 1%nat) 0 [(KMonotone, ZScalar 1%Q)] 0%Q [[3; -1]]%Q = Err /\
+  proximal_operator_nd Qops (fun q : Q => q) 3 (Some 1%nat) 0 [(KNonNeg, ZScalar 1%Q)] 0%Q [[3; -1]]%Q = Ok [[3; 0]]%Q.
 Proof. repeat split; vm_compute; reflexivity. Qed.
 (* the SVD-contract hypotheses of C12_procrustes_* / C12_svt_optimal_partial hold for a 2 x 2 instance (V a permutation matrix) *)
 Example C12_nonvacuous_svd_contract :
